@@ -1,16 +1,19 @@
 import DdoModel.Proto
 import DdoModel.Engines.Store
 import DdoModel.Props.C09c
-/-! Driver engine `cacheorder` (C09, "order in which sub-problems are processed" / "interleaving"): the counter-example
-    `Ddo.C09.Layered.Counter` (`Proofs/AnyOrderLayered.lean`) run through the real solvers.
+/-! Driver engine `cacheorder` (C09, "order in which sub-problems are processed" / "interleaving"): the former counter-example
+    `Ddo.C09.Layered.Counter` (`Proofs/AnyOrderLayered.lean`, finding D14) run through the real solvers.
     * case `counter`: the sequential solvers with `SimpleCache` and a breadth-first `SubProblemRanking` (four configurations),
       the library's `MaxUB` with the cache, and the breadth-first ranking without the cache.  `agree`: each run behaves as the
-      composed model says (`ksolveSched` on the breadth-first schedule: `is_exact = true`, value 4; `ksolveLoop` best-first: 10).
+      composed model of the **repaired** solver says (`enqueue_cutset` without the cap: `ksolveSched` on the breadth-first schedule
+      `Counter.schedNC`: `is_exact = true`, value 10 — `Counter.nocap_bfs_value`; `ksolveLoop` best-first: 10).  The prediction of
+      the pre-fix solver (`ksolveSchedCapped` on `Counter.sched`: value 4, `Counter.anyorder_counter_all`) is printed in the
+      notes for reference only.
     * case `counter_par`: the **parallel** solver with the library's own `MaxUB` ranking and `SimpleCache`, free-running and with
       one worker delayed between its pop and its compilation (`max_width` waits until another worker has recorded the
       threshold `(2, depth 5)`), and the same delayed schedule with `EmptyCache`.
-    `phi` (C09): every exact run reports the optimum 10 (`Counter.opt10`).  On the current code `phi` fails for both cases:
-    open known finding D14. -/
+    `phi` (C09): every exact run reports the optimum 10 (`Counter.opt10`).  Before the repair of D14 `phi` failed for both
+    cases (value 4); with the repaired code every run reports 10 (`caching_solver_correct`, any pop order). -/
 namespace Ddo.Engines
 open Ddo Ddo.Proto Ddo.C09 Ddo.C09.Layered
 
@@ -28,7 +31,9 @@ def cacheorderEngine (c i : List String) : Option Res := do
   match c with
   | ["counter"] =>
     let bfs := fun (dedup : Bool) (kind : CutsetKind) =>
-      showK ((Counter.sv dedup kind).ksolveSched (Counter.sched dedup kind) (KSt.init (Counter.sv dedup kind))).st.completion
+      showK ((Counter.sv dedup kind).ksolveSched (Counter.schedNC dedup kind) (KSt.init (Counter.sv dedup kind))).st.completion
+    -- what the pre-fix (capped) solver did on its own breadth-first schedule: reference only
+    let preFix := showK ((Counter.sv false .lel).ksolveSchedCapped (Counter.sched false .lel) (KSt.init (Counter.sv false .lel))).st.completion
     let want : List (String × String) :=
       [("maxub_lel_cache", showK ((Counter.sv false .lel).ksolveLoop 12 (KSt.init (Counter.sv false .lel))).st.completion),
        ("bfs_lel_cache", bfs false .lel), ("bfs_fc_cache", bfs false .frontier),
@@ -37,7 +42,7 @@ def cacheorderEngine (c i : List String) : Option Res := do
     let phi := wrong.isEmpty && broken.isEmpty
     pure { agree := bad.isEmpty, phi := phi, model := join (want.map (fun (n, m) => s!"{n} {m} ;")),
            note := (if phi then "" else s!"F:C09 [C09:any-order with SimpleCache and a breadth-first SubProblemRanking the sequential solver reports {join ((wrong.head?).getD ((broken.head?).getD []))} as exact; the optimum is 10 (without the cache: {(get "bfs_lel_nocache").getD "?"}); {wrong.length} configurations]")
-                   ++ (if bad.isEmpty then "" else s!" D:cacheorder {(bad.head?.map (·.1)).getD ""}") }
+                   ++ (if bad.isEmpty then "" else s!" D:cacheorder {(bad.head?.map (·.1)).getD ""} (pre-fix model: bfs_lel_cache {preFix})") }
   | ["counter_par"] =>
     let phi := wrong.isEmpty && broken.isEmpty
     pure { agree := true, phi := phi, model := "every exact run reports 10",
